@@ -974,6 +974,15 @@ class Server:
                         pending.add(
                             asyncio.create_task(self.parse_command(stream)),
                         )
+                    if task.cancelled():
+                        # a worker aborted before it made its first step: it
+                        # has not taken over the data connection yet
+                        if connection.future.data_connection.done():
+                            connection.data_connection.close()
+                            del connection.data_connection
+                        connection.response("426", "transfer aborted")
+                        connection.response("226", "abort successful")
+                        continue
                     try:
                         result = task.result()
                     except errors.PathIOError:
